@@ -40,7 +40,21 @@ PROPS: Dict[str, Dict[str, Any]] = {
                          "loopFields_iff", "C03_ntuple_container_first", "C03_ntuple_pre_iff", "C03_ntuple_arity",
                          "C03_ntuple_accept_iff", "C03_ntuple_reject_slots", "mapLoop_of_run",
                          "C03_map_container_first", "C03_map_accept", "C03_map_reject", "MapRun.keys_exact",
-                         "run_mono"], "stream": "core", "opts": {"salt": "c03", "gen": ["streams", "gen_collection_case"]},
+                         "run_mono",
+                         "src_list_sync", "src_list_async", "src_list_init", "src_list_wraps", "listSync_eq", "listAsync_eq",
+                         "lGate_exec", "lPredsSync_exec", "lAsyncPreds_exec", "lTail_exec", "lforFold2_items",
+                         "lforFold_apreds", "lcompFold_sync", "lLoopBody_exec"],
+            "modules": ["KodaModel.Properties.C03", "KodaModel.Properties.C03Src"],
+            "level_note": "the list validator is tied to the source twice: (1) TRANSLATOR - harness/pysrc.py rewrites "
+                          "Generated/ListSrc.lean from the AST of ListValidator._validate_to_tuple / _validate_to_tuple_async "
+                          "(list.py) on every run; src_list_sync / src_list_async prove that interpreting the translated "
+                          "methods (KodaModel/PyList.lean: walrus, tuple unpacking, enumerate, dict item assignment, append / "
+                          "extend, comprehension, for, await, early return) is the model's seqStep .list for every "
+                          "configuration, item validator and input - container level first, every element validated, failing "
+                          "indexes with the child's own Invalid, payloads in order, trace, exceptions; (2) the correspondence "
+                          "stream.  Sets, tuples, n-tuples and maps: hand-modelled, correspondence only (their source has the "
+                          "same shape but is not translated)",
+            "stream": "core", "opts": {"salt": "c03", "gen": ["streams", "gen_collection_case"]},
             "quick_n": 6000, "thorough_n": 100000, "fields": ["out", "trace"]},
     "C04": {"theorems": ["recLoop_of_run", "recLoop_to_run", "RecRun.errs_length", "RecRun.no_errs_iff", "C04_pre_first",
                          "C04_pre_iff", "C04_unknown_first", "C04_gate_record", "C04_gate_dictAny",
